@@ -386,6 +386,28 @@ def r5(ctx, facts, model):
         ok = a == e
         ctx.ob("C02-R5", "is_alive and entity() compute the current generation alike", ok, ia.loc(),
                "" if ok else "callee sets differ: only in is_alive %s, only in entity %s" % (sorted(a - e), sorted(e - a)))
+    # the aliveness predicates never consult the pending-deletion set: a deletion requested through the shared resource takes effect at the next
+    # maintain, until then the entity IS alive (seed C13-k1: `EntitiesRes::is_alive` = `alloc.is_alive(e) && !alloc.killed.contains(e.id())` -
+    # keyed lookups and get_other() refuse an entity that joins still visit and whose components are still there)
+    preds = [b for b in facts.bodies if b.name == "is_alive" and (b.self_ty or "").startswith("world::entity::") and b.ltype.get(0) == "bool"]
+    ctx.floor("C02-R5", "aliveness predicates of the entities resource", len(preds), 2)
+    for b in preds:
+        reads = set()
+        for bb, t in b.calls():
+            for i in range(len(t["args"])):
+                for r in b.roots(b.arg_origin(bb, i)):
+                    if r[0] == "param" and r[1] == 1:
+                        reads |= set(r[2])
+        for bid, blk in b.blocks.items():
+            for st in blk["stmts"]:
+                if st["rv"]["k"] == "ref":
+                    pn = b.origin(st["rv"]["place"])
+                    if pn[0] == "param" and pn[1] == 1:
+                        reads |= set(pn[2])
+        ok = "killed" not in reads
+        ctx.ob("C02-R5", "%s does not consult the pending-deletion set" % b.path, ok, b.loc(),
+               "" if ok else "the aliveness predicate reads the allocator's `killed` set: an entity whose deletion was only requested (effective at the next "
+               "maintain) is reported dead at once, while joins still visit it and its components are still stored")
     gets = [b for b in facts.bodies if b.name == "get" and b.trait_item and b.trait_item.split("::")[-2] in ("Join", "LendJoin", "ParJoin")
             and base_ty(b.self_ty or "") == "world::entity::EntitiesRes"]
     ctx.floor("C02-R5", "join get() impls for &EntitiesRes", len(gets), 2)
